@@ -152,7 +152,15 @@ func ReadEnvFile(filename string) (map[string]string, error) {
 	envs := make(map[string]string)
 	envscanner := bufio.NewScanner(f)
 	for envscanner.Scan() {
-		kv := strings.Split(envscanner.Text(), "=")
+		line := envscanner.Text()
+		if trimmed := strings.TrimSpace(line); trimmed == "" || strings.HasPrefix(trimmed, "#") {
+			continue
+		}
+
+		kv := strings.SplitN(line, "=", 2)
+		if len(kv) != 2 || kv[0] == "" {
+			return nil, fmt.Errorf("%s: invalid line %q, expected NAME=VALUE", filename, line)
+		}
 		envs[kv[0]] = kv[1]
 	}
 
